@@ -797,7 +797,18 @@ def iter1(ctx) -> List[Ob]:
             out.append(ok("ITER-1", fn.qualname, key, ctx.where(fn, w), f"each popped name passes `in {seen}` -> continue, is recorded, and is yielded once"))
         # (4) successors
         key = "continuation of an item"
-        ext_args = [A.unparse(c.args[0]) for c in pushes if c.args]
+        ext_args = []
+        for c in pushes:
+            if not c.args:
+                continue
+            a0 = c.args[0]
+            if isinstance(a0, ast.Name):
+                # one push of a local that an if / else in front of it chose: read as the pushes of its definitions
+                dv = [d.stmt.value for d in cfg.reaching_defs(c, a0.id) if d.stmt is not None and isinstance(d.stmt, ast.Assign)]
+                if dv and len(dv) == len(cfg.reaching_defs(c, a0.id)):
+                    ext_args += [A.unparse(v) for v in dv]
+                    continue
+            ext_args.append(A.unparse(a0))
         if concealed:
             want_region = [a for a in ext_args if ".subregion[" in a and ".exiting]" in a and a.endswith(".jump_targets")]
             want_plain = [a for a in ext_args if a.endswith(".jump_targets") and ".subregion" not in a]
